@@ -26,7 +26,7 @@ def _size(rng, big_ok=True):
     if r < 0.85:
         return rng.randrange(300, 9000)
     if big_ok and r < 0.93:
-        return rng.randrange(20000, 120000)
+        return rng.randrange(20000, 60000)
     return rng.randrange(1, 64)
 
 
@@ -39,7 +39,7 @@ def _send_prog(rng, tr, drv, budget):
         if r < 0.18:
             ops.append((5, rng.choice([0, 0, 1, 2]), 0))
             continue
-        a = _size(rng)
+        a = _size(rng, budget > 20000)
         if total + a > budget:
             a = rng.randrange(0, 200)
         total += a
@@ -81,12 +81,22 @@ def gen_stream(rng):
     drv = rng.choice([0, 1])
     tr = rng.choice([0, 1])
     split = rng.choice([0, 1, 2])
-    sbuf = 0 if rng.random() < 0.55 else rng.choice([2048, 4096, 8192, 16384])
-    rbuf = 0 if rng.random() < 0.55 else rng.choice([2048, 4096, 8192, 16384])
+    if tr == 1:
+        # Unix stream sockets: small buffers give partial sends at no cost
+        sbuf = 0 if rng.random() < 0.5 else rng.choice([2048, 4096, 8192, 16384])
+        rbuf = 0 if rng.random() < 0.5 else rng.choice([2048, 4096, 8192, 16384])
+        budget = 20000 if rng.random() < 0.88 else 100000
+    else:
+        # TCP: a tiny receive buffer stalls for seconds in the kernel's window
+        # probing, a tiny send buffer is paced by delayed ACKs: keep those rare and small
+        sbuf = 0 if rng.random() < 0.8 else rng.choice([4096, 16384])
+        rbuf = 0 if rng.random() < 0.85 else rng.choice([16384, 65536])
+        budget = 20000 if rng.random() < 0.9 else 100000
+        if sbuf == 4096:
+            budget = 6000
     plen = rng.choice([64, 256, 1024, 4096, 8192])
     psize = rng.choice([1, 2, 4, 8])
     seed = rng.randrange(0, 50000)
-    budget = 30000 if rng.random() < 0.9 else 300000
     early = rng.random() < 0.25
     a = _send_prog(rng, tr, drv, budget)
     b = _recv_prog(rng, plen, early)
